@@ -412,9 +412,15 @@ def boundary_value(node, variant: int, salt: str):
         return {k: boundary_value(x, variant, salt + k) for k, x in node.data.items()}
     if isinstance(node, V.Array):
         el = vfunctions.generate(node.item_decriptor)
-        return [boundary_value(el, variant, salt + str(i)) for i in range(1 + variant % 2)]
+        return [boundary_value(el, variant, salt + str(i)) for i in range(3 if variant == 3 else 1 + variant % 2)]
     cls = type(node)
     lim = limited_text_count(node)
+    if variant == 3:
+        alts = [t.__name__ for t in cls.__allowedtypes__] if cls.__type__ is V.Dynamic else []
+        if "String" in alts and any(t in INT_TYPES for t in alts):
+            pool = [d for d in ("0", "42", "255", "-1", "65536", "7", "127", "-128") if lim is None or len(d) <= lim]
+            return pool[sum(map(ord, salt + cls.__name__)) % len(pool)]
+        variant = 0
     if lim is not None:
         n = max(lim + (0, -1, 1)[variant], 0)
         ch = chr(65 + sum(map(ord, salt + cls.__name__)) % 26)
@@ -434,13 +440,94 @@ def boundary_value(node, variant: int, salt: str):
     return b"\x01\x02" if cls.__count__ != 1 else b"\x07"
 
 
+def class_state():
+    """the class-level mutable tables of the variable, data item and function classes (lists, dicts, sets), as comparable text"""
+    import secsgem.secs.data_items as dmod  # noqa: PLC0415
+    out = {}
+    groups = [("variables", [c for c in vars(V).values() if isinstance(c, type)] + [ANYVALUE]),
+              ("data_items", [c for c in vars(dmod).values() if isinstance(c, type)]),
+              ("functions", [c for c in vars(fmod).values() if isinstance(c, type)])]
+    for gname, clss in groups:
+        for c in clss:
+            for k, v in vars(c).items():
+                if isinstance(v, (list, dict, set, tuple)) and not (k.startswith("__") and k.endswith("__") and k not in ("__allowedtypes__",)):
+                    out[f"{gname}.{c.__name__}.{k}"] = repr(v)
+    return out
+
+
+CLASS_STATE_AT_IMPORT = class_state()
+
+
+def class_state_diff():
+    now = class_state()
+    return {k: {"at_import": CLASS_STATE_AT_IMPORT.get(k), "now": now.get(k)} for k in sorted(set(now) | set(CLASS_STATE_AT_IMPORT))
+            if now.get(k) != CLASS_STATE_AT_IMPORT.get(k)}
+
+
+def read_everything(obj, log=None):
+    """read every public property / side-effect-free method the library itself uses on a variable, data item or function object"""
+    n = 0
+    for attr in ("preferred_type", "preferred_types", "is_dynamic", "typ", "name", "format_code", "text_code", "types", "count"):
+        try:
+            getattr(obj, attr)
+            n += 1
+        except Exception as exc:  # noqa: BLE001 - some attributes do not exist on some classes; a raise of an existing one is logged
+            if log is not None and hasattr(type(obj), attr):
+                log.append(f"{type(obj).__name__}.{attr}: {type(exc).__name__}")
+    for call in (repr, str, lambda o: o.get(), lambda o: type(o).get_format(), lambda o: len(o), lambda o: hash(o) if False else None):
+        try:
+            call(obj)
+            n += 1
+        except Exception:  # noqa: BLE001 - len()/get() of an unset value may legitimately raise
+            pass
+    return n
+
+
+def read_all_of(cls, log=None):
+    """the reads above on the function class, an instance, and every node and leaf of its variable tree"""
+    n = 0
+    for call in (repr, str, lambda c: c.get_format(), lambda c: c.stream, lambda c: c.function):
+        try:
+            call(cls)
+            n += 1
+        except Exception:  # noqa: BLE001
+            pass
+    try:
+        inst = cls()
+    except Exception:  # noqa: BLE001
+        return n
+    n += read_everything(inst, log)
+
+    def walk(node):
+        nonlocal n
+        if node is None:
+            return
+        n += read_everything(node, log)
+        if isinstance(node, V.List):
+            for x in node.data.values():
+                walk(x)
+        elif isinstance(node, V.Array):
+            try:
+                walk(vfunctions.generate(node.item_decriptor))
+            except Exception:  # noqa: BLE001
+                pass
+    walk(inst.data)
+    return n
+
+
 def order_worker(jobfile: str, outfile: str):
     """fresh interpreter: read back (and round-trip) the given values function by function IN THE GIVEN ORDER"""
     job = json.load(open(jobfile))
     sf = StreamsFunctions()
     out = []
+    prelude = job.get("prelude", "none")
+    if prelude == "reads first":
+        for name in job["order"]:
+            read_all_of(getattr(fmod, name))
     for name in job["order"]:
         cls = getattr(fmod, name)
+        if prelude == "reads interleaved":
+            read_all_of(cls)
         for variant, enc in job["values"][name]:
             value = dec_json(enc)
             try:
@@ -457,6 +544,8 @@ def order_worker(jobfile: str, outfile: str):
             except Exception as exc:  # noqa: BLE001
                 st += "; wire raises " + type(exc).__name__
             out.append([name, variant, st])
+    diff = class_state_diff()
+    out.append(["<class-level tables>", 9, "unchanged" if not diff else "MUTATED: " + json.dumps(diff)[:1500]])
     json.dump(out, open(outfile, "w"))
 
 
@@ -959,19 +1048,24 @@ def main():
             if cls._data_format is None:
                 continue
             inst = cls()
-            values[cls.__name__] = [[v, enc_json(boundary_value(inst.data, v, cls.__name__))] for v in (0, 1, 2)]
+            values[cls.__name__] = [[v, enc_json(boundary_value(inst.data, v, cls.__name__))] for v in (0, 1, 2, 3)]
             lims = [x for x in (limited_text_count(leaf) for leaf in leaves_of(inst.data, [])) if x is not None]
             restrict[cls.__name__] = min(lims) if lims else 10 ** 9
         names = list(values)
         orders = {"catalogue order": names, "reverse catalogue order": names[::-1],
                   "tightest length limit first": sorted(names, key=lambda n: restrict[n]),
                   "loosest length limit first": sorted(names, key=lambda n: -restrict[n]),
-                  "seeded shuffle 1": rng.shuffle(names), "seeded shuffle 2": rng.shuffle(names)}
+                  "seeded shuffle 1": rng.shuffle(names), "seeded shuffle 2": rng.shuffle(names),
+                  # first actions: every public property / read-only method of every function, variable and data item object
+                  "all property reads first, then catalogue order": names, "all property reads first, then a seeded shuffle": rng.shuffle(names),
+                  "property reads of each function right before its values": names}
+        prelude_of = {"all property reads first, then catalogue order": "reads first", "all property reads first, then a seeded shuffle": "reads first",
+                      "property reads of each function right before its values": "reads interleaved"}
         scratch = os.environ.get("VERIF_SCRATCH") or tempfile.mkdtemp(prefix="verif-c03-")
         procs = []
         for i, (oname, order) in enumerate(orders.items()):
             jf, of = os.path.join(scratch, f"order{i}.job.json"), os.path.join(scratch, f"order{i}.out.json")
-            json.dump({"order": order, "values": values}, open(jf, "w"))
+            json.dump({"order": order, "values": values, "prelude": prelude_of.get(oname, "none")}, open(jf, "w"))
             procs.append((oname, of, subprocess.Popen([sys.executable, os.path.abspath(__file__), "--order-worker", jf, of],
                                                       stdout=subprocess.PIPE, stderr=subprocess.STDOUT)))
         outcomes = {}
@@ -985,7 +1079,14 @@ def main():
                 raise RuntimeError(f"order worker '{oname}' failed: {out[-400:]!r}")
             for name, variant, st in json.load(open(of)):
                 outcomes.setdefault((name, variant), {})[oname] = st
-        vdesc = {0: "length-limited items at their limit", 1: "one below the limit", 2: "one above the limit (not conforming)"}
+        vdesc = {0: "length-limited items at their limit", 1: "one below the limit", 2: "one above the limit (not conforming)",
+                 3: "digits-only text ('0', '42', '255', '-1', '65536') for items that take text and numbers"}
+        state = outcomes.pop(("<class-level tables>", 9), {})
+        for oname, st in sorted(state.items()):
+            res.evaluations += 1
+            if st != "unchanged":
+                res.violate("c03-class-state-mutated", "using the catalogue changed a class-level table of the variable / data item / function classes",
+                            {"order": oname}, "unchanged", st)
         for (name, variant), by_order in sorted(outcomes.items()):
             res.count(("order", name, variant), nontrivial=True, sample={"op": "order experiment", "function": name, "variant": vdesc[variant]} if len(res.samples) < 9 and variant == 0 else None)
             res.evaluations += len(by_order) - 1
@@ -999,7 +1100,7 @@ def main():
                 res.violate("c03-plain-readback" if distinct[0].startswith("read back") else "c03-constructor-rejects",
                             "a structure-conforming value with length-limited items at (or one below) their limit is not read back unchanged / does not round-trip",
                             {"function": name, "value": canon(value), "variant": vdesc[variant]}, "read back unchanged; wire ok", distinct[0])
-        res.exhaustive_parts.append(f"order experiment: {len(values)} functions x 3 boundary variants in {len(orders)} global orders, each order in a fresh interpreter")
+        res.exhaustive_parts.append(f"order experiment: {len(values)} functions x 4 value variants in {len(orders)} global orders / first actions, each in a fresh interpreter")
 
     if a.replay:
         # verdict of a replay: only what the recorded run reported (its finding classes; its broken correspondence)
@@ -1011,6 +1112,17 @@ def main():
     with Phase(res, "codec value oracle (c03_fn)"):
         import c03_fn  # noqa: E402
         c03_fn.run(res, rng.fork("fn"), drv, a.tier)
+    with Phase(res, "class-level tables after the whole harness"):
+        log = []
+        n_reads = sum(read_all_of(cls, log) for cls in list(secs_streams_functions))
+        res.evaluations += n_reads
+        res.count(("class-state",), sample={"op": "class-level tables vs snapshot at import", "tables": len(CLASS_STATE_AT_IMPORT), "property_reads": n_reads})
+        diff = class_state_diff()
+        if diff:
+            first = next(iter(diff))
+            res.violate("c03-class-state-mutated", "after the harness (constructors, encode/decode, lookups, every public property read) a class-level table differs from its state at import",
+                        {"table": first, "others": list(diff)[1:6]}, diff[first]["at_import"], diff[first]["now"])
+        res.exhaustive_parts.append(f"{len(CLASS_STATE_AT_IMPORT)} class-level lists/dicts of the variable, data item and function classes compared with their state at import")
     # shortest failing case first (it becomes the "first failing input" of the verdict and of the replay file)
     res.violations.sort(key=lambda v: len(json.dumps(v["case"], default=repr)))
     res.disagreements.sort(key=lambda v: len(json.dumps(v["case"], default=repr)))
